@@ -105,7 +105,7 @@ def render_xml(nodes):
             s = X.el("Address", n["addr"])
             for v, o in n["index"]:
                 s += '<pIndex Offset="%d">%s</pIndex>' % (o, name(v, nodes))
-            s += X.el("Length", n["len"]) + X.el("AccessMode", "RW") + X.el("pPort", "Device")
+            s += X.el("Length", n["len"]) + X.el("AccessMode", n.get("am", "RW")) + X.el("pPort", "Device")
             s += X.el("Cachable", n["mode"])
             if common:
                 s += "".join(X.el("pInvalidator", name(k, nodes)) for k in common)
@@ -123,7 +123,7 @@ def render_xml(nodes):
             s = X.el("Address", n["addr"])
             for v, o in n["index"]:
                 s += '<pIndex Offset="%d">%s</pIndex>' % (o, name(v, nodes))
-            s += X.el("Length", n["len"]) + X.el("AccessMode", "RW") + X.el("pPort", "Device")
+            s += X.el("Length", n["len"]) + X.el("AccessMode", n.get("am", "RW")) + X.el("pPort", "Device")
             s += X.el("Cachable", n["mode"])
             s += "".join(X.el("pInvalidator", name(k, nodes)) for k in sorted(n["inval"]))
             if n["kind"] == "masked":
@@ -576,6 +576,22 @@ def boundary_cases():
         nodes = [reg("masked", BASE, 2, mode=mode, lo=0, hi=3, struct=1), reg("masked", BASE, 2, mode=mode, lo=4, hi=15, struct=1)]
         declare(nodes)
         cs.append(make_case(nodes, img, h[:2] + [("s", 0, [3]), ("v", 1), ("s", 1, [0x123]), ("v", 0)], fam="boundary"))
+        # (d) declared access modes (RO / WO) restrict what is_readable / is_writable report (C18), not what value /
+        #     set_value do, and never what is registered as a pInvalidator: a write-only bit field is a
+        #     read-modify-write of its own cached word, so it must still be told that a sibling rewrote the register
+        for am in ("WO", "RO", "RW"):
+            for am2 in ("RW", "WO"):
+                nodes = [reg("masked", BASE, 4, mode=mode, lo=0, hi=1), reg("masked", BASE, 4, mode=mode, lo=8, hi=15),
+                         reg("int", BASE + 2, 2, mode=mode)]
+                nodes[0]["am"], nodes[1]["am"], nodes[2]["am"] = am, am2, am
+                declare(nodes)
+                h = [("s", 0, [3]), ("s", 1, [0x11]), ("s", 0, [3]), ("v", 1), ("s", 1, [0x22]), ("s", 0, [1]), ("v", 1), ("v", 0),
+                     ("s", 2, [0x4321]), ("s", 0, [2]), ("v", 2), ("v", 1)]
+                cs.append(make_case(nodes, img, h, fam="boundary"))
+            nodes = [reg("masked", BASE, 2, mode=mode, lo=0, hi=3, struct=0), reg("masked", BASE, 2, mode=mode, lo=4, hi=15, struct=0)]
+            nodes[0]["am"] = nodes[1]["am"] = am
+            declare(nodes)
+            cs.append(make_case(nodes, img, [("s", 0, [3]), ("s", 1, [0x123]), ("s", 0, [5]), ("v", 1), ("v", 0)], fam="boundary"))
         # selector: bank with self-overlap, an aliasing static register
         nodes = [var(0), reg("int", BASE, 4, mode=mode, index=[(0, 2)]), reg("int", BASE + 4, 2, mode="WriteThrough")]
         declare(nodes)
@@ -594,6 +610,26 @@ def gen_cases(ck):
     for k in range(n):
         fam, mk = fams[k % 3]
         nodes = mk(rng)
+        if rng.chance(1, 3):
+            # declared access modes: per register, shared by the entries of one structure
+            per_struct = {}
+            # (ICommand::is_done answers true without an access when its pValue node is not readable - C03's
+            #  subject, not modelled here: the pValue chains of commands, and their structures, keep RW)
+            cmd_targets = {m["target"] for m in nodes if m["t"] == "cmd"}
+            for _ in nodes:     # ... or write-only behind a pValue chain: the whole chain keeps RW
+                cmd_targets |= {nodes[t]["target"] for t in cmd_targets if nodes[t]["t"] == "int"}
+            keep = {nodes[t]["struct"] for t in cmd_targets if nodes[t]["t"] == "reg" and nodes[t]["struct"] is not None}
+            for ix, nd in enumerate(nodes):
+                if ix in cmd_targets or (nd["t"] == "reg" and nd["struct"] in keep):
+                    continue
+                if nd["t"] == "reg" and rng.chance(1, 2):
+                    am = rng.choice(["RO", "WO", "WO"])
+                    if nd["struct"] is not None:
+                        am = per_struct.setdefault(nd["struct"], am)
+                    nd["am"] = am
+            for nd in nodes:
+                if nd["t"] == "reg" and nd["struct"] in per_struct:
+                    nd["am"] = per_struct[nd["struct"]]
         declare(nodes, rng, extra=rng.chance(1, 3))
         image = rng.bytes(IMG) if rng.chance(3, 4) else bytes([rng.choice([0, 255, 65])] * IMG)
         ops = rand_ops(rng, nodes, rng.range(3, 30))
